@@ -469,7 +469,7 @@ pub fn run_c07(run: &mut Run, replay: Option<&Path>, corpus: &Path) -> anyhow::R
     }
 
     let mut rng = Rng::new(run.seed);
-    let (n_msgs, n_mal, body_cap) = if run.quick() { (2500, 12000, 16 * 1024) } else { (40000, 300000, 256 * 1024) };
+    let (n_msgs, n_mal, body_cap) = if run.quick() { (2500, 12000, 16 * 1024) } else { (10000, 100000, 64 * 1024) };
 
     // ---- structured, valid messages: encode (bytes compared with the model), decode, round-trip oracle
     for i in 0..n_msgs {
